@@ -5,7 +5,8 @@ token, messages the peer produced (token + content), calls returning — and `ju
 history satisfies the property:
 
 * own-token       a call that returns successfully returns a response carrying its own token …
-* peer-produced   … and content the peer produced in a message with that token;
+* peer-produced   … and content the peer produced in a message with that token *after the call started* (what the peer
+                  produced before cannot be "for that request");
 * single-receiver one message of the peer is never given to two calls (no more successful returns with
                   a given (token, content) than the peer produced messages with it);
 * reject-duplicate a request issued with a token that is still outstanding is rejected;
@@ -42,8 +43,11 @@ structure Active where
 
 structure JState where
   active : List Active := []
+  clock : Nat := 0                          -- position in the history
   toks : List (Nat × Token) := []          -- token of every started call (kept after return)
+  startAt : List (Nat × Nat) := []         -- call ↦ position of its start
   produced : List (Token × String) := []   -- multiset of what the peer produced
+  producedAt : List (Token × String × Nat) := []   -- … with the position of each message
   delivered : List (Token × String) := []  -- multiset of what calls returned
   mustReject : List Nat := []
   mustAccept : List Nat := []
@@ -62,7 +66,8 @@ def jstep (s : JState) : HEv → Except String JState
     if tok = [] then .ok s else
     let outstanding := s.active.any (fun a => a.tok = tok && !a.answered)
     let clash := s.active.any (fun a => a.tok = tok)
-    let s := { s with toks := (c, tok) :: s.toks, active := s.active ++ [⟨c, tok, false, direct && !s.closed⟩] }
+    let s := { s with toks := (c, tok) :: s.toks, startAt := (c, s.clock) :: s.startAt,
+                      active := s.active ++ [⟨c, tok, false, direct && !s.closed⟩] }
     if outstanding then .ok { s with mustReject := c :: s.mustReject }
     else if !clash && !s.closed && tok.length ≤ 8 then .ok { s with mustAccept := c :: s.mustAccept }
     else .ok s
@@ -71,7 +76,7 @@ def jstep (s : JState) : HEv → Except String JState
     let exp := match cands with
       | [a] => if complete && a.direct && !a.answered && !s.closed && !s.mustReject.contains a.c then [a.c] else []
       | _ => []
-    .ok { s with produced := (tok, tag) :: s.produced, expect := exp ++ s.expect,
+    .ok { s with produced := (tok, tag) :: s.produced, producedAt := (tok, tag, s.clock) :: s.producedAt, expect := exp ++ s.expect,
                  active := s.active.map (fun a => if a.tok = tok then { a with answered := true } else a) }
   | .idle => if s.expect.isEmpty then .ok s else .error "response-reaches"
   | .retOk c tok tag =>
@@ -80,7 +85,7 @@ def jstep (s : JState) : HEv → Except String JState
     | some own =>
       if own ≠ tok then .error "own-token"
       else if s.mustReject.contains c then .error "reject-duplicate"
-      else if count (tok, tag) s.produced = 0 then .error "peer-produced"
+      else if !(s.producedAt.any (fun p => p.1 = tok && p.2.1 = tag && p.2.2 > (s.startAt.lookup c).getD 0)) then .error "peer-produced"
       else if count (tok, tag) s.delivered + 1 > count (tok, tag) s.produced then .error "single-receiver"
       else .ok { s with delivered := (tok, tag) :: s.delivered, active := s.active.filter (·.c ≠ c),
                         expect := s.expect.filter (· ≠ c) }
@@ -92,7 +97,7 @@ def jstep (s : JState) : HEv → Except String JState
 
 def jrun : JState → List HEv → Except String JState
   | s, [] => .ok s
-  | s, e :: es => match jstep s e with
+  | s, e :: es => match jstep { s with clock := s.clock + 1 } e with
     | .ok s' => jrun s' es
     | .error c => .error c
 
